@@ -6,7 +6,7 @@
 (* All(0) texts are spelled here; the driver only compiles and searches them, *)
 (* and additionally builds the compound from the parts' public ASTs.       *)
 (***************************************************************************)
-EXTENDS Spell, Json, IOUtils, TLC
+EXTENDS Spell, Json, IOUtils, TLC, SequencesExt
 
 I(c)  == TIdent(<<c>>)
 P(k)  == TPlain(k)
